@@ -42,3 +42,9 @@ Proof.
   rewrite E. reflexivity.
 Qed.
 Print Assumptions C11_current_tree_model_is_exact.
+
+(** The vote-string parser tests EVERY tuple's pair against all pairs seen so far (no entry —
+    abstain or priced — bypasses the test): the duplicate rule of this tree is the model's [DupAll]. *)
+Theorem C11_rates_duplicates_checked_for_all_entries : dup_rule_of_facts rates_dup_check = Some DupAll.
+Proof. vm_compute. reflexivity. Qed.
+Print Assumptions C11_rates_duplicates_checked_for_all_entries.
